@@ -53,18 +53,20 @@ VARIABLES
   lockq,    \* FIFO of tasks waiting for the semaphore
   task,     \* [Tasks -> record]        control state of every task
   nact,     \* handler activations created so far
+  nx,       \* execute_handler tasks created so far (parallel buses)
   cur,      \* the task inside an atomic stretch, or NoTask
   o,        \* observable state (BubusProps)
   hlog,     \* history of emitted lines when KeepLog (never read by any action)
   Cfg       \* the static configuration (a variable that never changes, so that one TLC run can validate traces of many configurations)
-vars == <<nev, ev, q, unf, shut, hist, running, idle, semv, depth, lockq, task, nact, cur, o, hlog, Cfg>>
+vars == <<nev, ev, q, unf, shut, hist, running, idle, semv, depth, lockq, task, nact, nx, cur, o, hlog, Cfg>>
 
 NoTask == <<"none", "">>
 RL(b) == <<"rl", b>>
 HT(a) == <<"h", a>>
 DT(i) == <<"d", i>>
+XT(k) == <<"x", k>>     \* an execute_handler task of a parallel_handlers bus
 B == BusNames(Cfg)
-Tasks == {RL(b) : b \in B} \cup {HT(a) : a \in 1..MaxAct} \cup {DT(i) : i \in 1..NDrv}
+Tasks == {RL(b) : b \in B} \cup {HT(a) : a \in 1..MaxAct} \cup {XT(k) : k \in 1..MaxAct} \cup {DT(i) : i \in 1..NDrv}
 
 
 T0 == [pc |-> "none", b |-> "", e |-> 0, h |-> "", owner |-> NoTask, kids |-> <<>>, aw |-> 0, bud |-> 0, holds |-> FALSE,
@@ -152,7 +154,8 @@ Obs(ln, E, n, H, Q) ==
   LET o0 == [o EXCEPT !.snap = Snaps(E, n), !.ety = [e \in 1..n |-> E[e].ty], !.hist = H, !.q = Q]
   IN StepCore(Cfg, o, o0, ln)
 
-TaskLabelKind(t) == IF t[1] = "rl" THEN "rl" ELSE IF t[1] = "h" THEN "in" ELSE "?"
+FrameOwner(t) == IF t[1] = "x" THEN task[t].owner ELSE t      \* the task that called process_event
+TaskLabelKind(t) == LET r == FrameOwner(t) IN IF r[1] = "rl" THEN "rl" ELSE IF r[1] = "h" THEN "in" ELSE "?"
 
 InitWith(c) ==
   /\ Cfg = c
@@ -161,7 +164,7 @@ InitWith(c) ==
   /\ hist = [b \in B |-> <<>>] /\ running = [b \in B |-> FALSE] /\ idle = [b \in B |-> FALSE]
   /\ semv = 1 /\ depth = 0 /\ lockq = <<>>
   /\ task = [t \in Tasks |-> IF t[1] = "d" THEN [T0 EXCEPT !.pc = "run", !.bud = DrvBudget] ELSE T0]
-  /\ nact = 0 /\ cur = NoTask
+  /\ nact = 0 /\ nx = 0 /\ cur = NoTask
   /\ o = ObsInit(Cfg)
   /\ hlog = <<>>
 Init == InitWith(Cfg0)
@@ -214,19 +217,19 @@ BusyOn(E, H, Q, b) == Q[b] # <<>> \/ \E x \in Range(H[b]) : Status(E[x]) \in {"p
 RLStart(b) ==   \* first step of the run-loop task: fresh context (fix: F6), first queue poll started
   /\ cur = NoTask /\ task[RL(b)].pc = "new"
   /\ task' = [task EXCEPT ![RL(b)].pc = "poll"]
-  /\ UNCHANGED <<nev, ev, q, unf, shut, hist, running, idle, semv, depth, lockq, nact, cur, o>>
+  /\ UNCHANGED <<nev, ev, q, unf, shut, hist, running, idle, semv, depth, lockq, nact, nx, cur, o>>
 
 RLTake(b) ==    \* the helper task's queue.get() -> get_nowait(): the event leaves the queue before any lock
   /\ cur = NoTask /\ task[RL(b)].pc = "poll" /\ q[b] # <<>>
   /\ task' = [task EXCEPT ![RL(b)].pc = "got", ![RL(b)].e = Head(q[b])]
   /\ q' = [q EXCEPT ![b] = Tail(@)]
-  /\ UNCHANGED <<nev, ev, unf, shut, hist, running, idle, semv, depth, lockq, nact, cur, o>>
+  /\ UNCHANGED <<nev, ev, unf, shut, hist, running, idle, semv, depth, lockq, nact, nx, cur, o>>
 
 RLPollIdle(b) ==  \* 0.1 s poll timeout: idle flag set when nothing is queued / pending / started
   /\ cur = NoTask /\ task[RL(b)].pc = "poll" /\ q[b] = <<>>
   /\ ~idle[b] /\ ~BusyOn(ev, hist, q, b)
   /\ idle' = [idle EXCEPT ![b] = TRUE]
-  /\ UNCHANGED <<nev, ev, q, unf, shut, hist, running, semv, depth, lockq, task, nact, cur, o>>
+  /\ UNCHANGED <<nev, ev, q, unf, shut, hist, running, semv, depth, lockq, task, nact, nx, cur, o>>
 
 \* process_event head for owner t: handler selection, pending results, ProcB / ProcX line
 ProcBeginFx(t, b, e, E0) ==
@@ -256,7 +259,7 @@ ProcSelect(t) ==
           /\ o' = Obs(ProcLine("ProcX", t, b, e), ev, nev, hist, q)
           /\ task' = [task EXCEPT ![t].pc = "abort"]
           /\ UNCHANGED <<semv, depth, lockq, cur>>
-  /\ UNCHANGED <<nev, q, unf, shut, hist, running, idle, nact>>
+  /\ UNCHANGED <<nev, q, unf, shut, hist, running, idle, nact, nx>>
 
 OwnerAbort(t) ==
   /\ cur = t /\ task[t].pc = "abort"
@@ -269,7 +272,7 @@ OwnerAbort(t) ==
      ELSE \* the RuntimeError propagates out of `await child` into the awaiting handler
           /\ task' = [task EXCEPT ![t].pc = "raising", ![t].aw = 0, ![t].fe = 0, ![t].fb = ""]
           /\ UNCHANGED <<semv, depth, lockq, cur>>
-  /\ UNCHANGED <<nev, ev, q, unf, shut, hist, running, idle, nact, o>>
+  /\ UNCHANGED <<nev, ev, q, unf, shut, hist, running, idle, nact, nx, o>>
 
 RLBegin(b) ==   \* the run-loop task resumes with the event: idle flag cleared, lock
   /\ cur = NoTask /\ task[RL(b)].pc = "got"
@@ -279,19 +282,20 @@ RLBegin(b) ==   \* the run-loop task resumes with the event: idle flag cleared, 
      ELSE /\ lockq' = Append(lockq, RL(b))
           /\ task' = [task EXCEPT ![RL(b)].pc = "lockwait"]
           /\ UNCHANGED <<ev, semv, depth, cur, o>>
-  /\ UNCHANGED <<nev, q, unf, shut, hist, running, nact>>
+  /\ UNCHANGED <<nev, q, unf, shut, hist, running, nact, nx>>
 
 RLGranted(b) ==
   /\ cur = NoTask /\ task[RL(b)].pc = "granted"
   /\ RLEnter(b, task, semv, 1, lockq)
-  /\ UNCHANGED <<nev, q, unf, shut, hist, running, idle, nact>>
+  /\ UNCHANGED <<nev, q, unf, shut, hist, running, idle, nact, nx>>
 
 \* ------------------------------------------------------------------------
 \* frames: executing the handlers of the owner's current event (execute_handler, A.9 without timeouts)
 \* ------------------------------------------------------------------------
 \* next handler of the frame, or the tail of process_event
+ParFrame(t) == t[1] # "x" /\ task[t].fe # 0 /\ IsParallel(Cfg, task[t].fb)
 OwnerNext(t) ==
-  /\ task[t].fe # 0
+  /\ task[t].fe # 0 /\ ~ParFrame(t)
   /\ (cur = t /\ task[t].pc = "pb") \/ (cur = NoTask /\ task[t].pc = "mon")
   /\ task[t].todo # <<>>
   /\ LET h == Head(task[t].todo)  b == task[t].fb  e == task[t].fe IN
@@ -313,7 +317,7 @@ OwnerNext(t) ==
                                     ![HT(a)] = [T0 EXCEPT !.pc = "sync", !.b = b, !.e = e, !.h = h.id, !.owner = t, !.bud = Budget, !.lvl = ev[e].lvl]] IN
              /\ ev' = E1 /\ nact' = a /\ task' = T1
              /\ cur' = t
-             /\ o' = Obs(Line("HEnter") @@ [act |-> a, b |-> b, e |-> e, h |-> h.id, byk |-> TaskLabelKind(t), bya |-> IF t[1] = "h" THEN t[2] ELSE 0,
+             /\ o' = Obs(Line("HEnter") @@ [act |-> a, b |-> b, e |-> e, h |-> h.id, byk |-> TaskLabelKind(t), bya |-> IF FrameOwner(t)[1] = "h" THEN FrameOwner(t)[2] ELSE 0,
                                            rb |-> Last(ev[e].path), sync |-> TRUE, tmo |-> -1], E1, nev, hist, q)
           /\ UNCHANGED <<q, unf, hist, running>>
      ELSE \* async scenario handler: result started, handler task created with a copy of the context, wait_for suspends
@@ -325,7 +329,30 @@ OwnerNext(t) ==
                                                               !.holds = task[t].holds, !.lvl = ev[e].lvl]]
           /\ cur' = NoTask
           /\ UNCHANGED <<q, unf, hist, running, o>>
-  /\ UNCHANGED <<nev, shut, idle, semv, depth, lockq>>
+  /\ UNCHANGED <<nev, shut, idle, semv, depth, lockq, nx>>
+
+\* parallel_handlers: one execute_handler task per applicable handler, all created at once; the frame owner awaits them all
+ParStart(t) ==
+  /\ ParFrame(t) /\ cur = t /\ task[t].pc = "pb" /\ task[t].todo # <<>>
+  /\ nx + Len(task[t].todo) <= MaxAct
+  /\ LET hs == task[t].todo IN
+     /\ task' = [u \in Tasks |->
+                   IF u = t THEN [task[t] EXCEPT !.pc = "pwait", !.todo = <<>>]
+                   ELSE IF u[1] = "x" /\ u[2] \in (nx + 1)..(nx + Len(hs))
+                        THEN [T0 EXCEPT !.pc = "xnew", !.owner = t, !.fb = task[t].fb, !.fe = task[t].fe, !.todo = <<hs[u[2] - nx]>>, !.holds = task[t].holds]
+                        ELSE task[u]]
+     /\ nx' = nx + Len(hs)
+  /\ cur' = NoTask
+  /\ UNCHANGED <<nev, ev, q, unf, shut, hist, running, idle, semv, depth, lockq, nact, o>>
+XStart(k) ==      \* first step of an execute_handler task
+  /\ cur = NoTask /\ k <= nx /\ task[XT(k)].pc = "xnew"
+  /\ task' = [task EXCEPT ![XT(k)].pc = "pb"]
+  /\ cur' = XT(k)
+  /\ UNCHANGED <<nev, ev, q, unf, shut, hist, running, idle, semv, depth, lockq, nact, nx, o>>
+XEnd(k) ==        \* execute_handler returned (after its monitor hop)
+  /\ cur = NoTask /\ k <= nx /\ task[XT(k)].pc = "mon" /\ task[XT(k)].todo = <<>>
+  /\ task' = [task EXCEPT ![XT(k)].pc = "done"]
+  /\ UNCHANGED <<nev, ev, q, unf, shut, hist, running, idle, semv, depth, lockq, nact, nx, cur, o>>
 
 \* the forwarding handler returned (or raised): its result is recorded; `await monitor_task` in the finally suspends for one hop
 FwdReturn(t) ==
@@ -335,7 +362,7 @@ FwdReturn(t) ==
                              ELSE SetRes(@, h, b, "error", "X:" \o task[t].out, "none")]
   /\ task' = [task EXCEPT ![t].pc = "mon", ![t].out = ""]
   /\ cur' = NoTask
-  /\ UNCHANGED <<nev, q, unf, shut, hist, running, idle, semv, depth, lockq, nact, o>>
+  /\ UNCHANGED <<nev, q, unf, shut, hist, running, idle, semv, depth, lockq, nact, nx, o>>
 
 \* a sync scenario handler runs inside its owner's stretch: it can dispatch, return or raise, never suspend
 InSync(t) == cur = t /\ task[t].pc = "sync"
@@ -349,12 +376,12 @@ SyncDispatch(t, b, ty) ==
         /\ ev' = d.E /\ q' = d.Q /\ unf' = d.U /\ hist' = d.H /\ running' = d.R
         /\ task' = [d.T EXCEPT ![HT(a)].bud = @ - 1, ![HT(a)].kids = Append(@, IF d.out = "ok" THEN e ELSE 0)]
         /\ o' = Obs(DispLine(b, e, ty, d.out, a, 0, FALSE), d.E, e, d.H, d.Q)
-  /\ UNCHANGED <<shut, idle, semv, depth, lockq, nact, cur>>
+  /\ UNCHANGED <<shut, idle, semv, depth, lockq, nact, nx, cur>>
 SyncFinish(t, out) ==
   /\ InSync(t) /\ out \in {"ret"} \cup (IF WithErrors THEN {"raise"} ELSE {})
   /\ task' = [task EXCEPT ![t].pc = "syncret", ![HT(task[t].fa)].pc = "done", ![HT(task[t].fa)].out = out]
   /\ o' = Obs(Line("HExit") @@ [act |-> task[t].fa, out |-> out], ev, nev, hist, q)
-  /\ UNCHANGED <<nev, ev, q, unf, shut, hist, running, idle, semv, depth, lockq, nact, cur>>
+  /\ UNCHANGED <<nev, ev, q, unf, shut, hist, running, idle, semv, depth, lockq, nact, nx, cur>>
 SyncReturn(t) ==   \* back in execute_handler: result recorded, then `await monitor_task` (one hop)
   /\ cur = t /\ task[t].pc = "syncret"
   /\ LET b == task[t].fb  e == task[t].fe  a == task[t].fa IN
@@ -362,7 +389,7 @@ SyncReturn(t) ==   \* back in execute_handler: result recorded, then `await moni
                              ELSE SetRes(@, task[t].fh, b, "completed", "", "none")]
   /\ task' = [task EXCEPT ![t].pc = "mon"]
   /\ cur' = NoTask
-  /\ UNCHANGED <<nev, q, unf, shut, hist, running, idle, semv, depth, lockq, nact, o>>
+  /\ UNCHANGED <<nev, q, unf, shut, hist, running, idle, semv, depth, lockq, nact, nx, o>>
 
 \* the owner resumes after its handler task finished: result recorded, monitor cancelled and awaited (one hop)
 OwnerResume(t) ==
@@ -372,12 +399,14 @@ OwnerResume(t) ==
      /\ ev' = [ev EXCEPT ![e] = IF out = "raise" THEN SetRes(@, task[t].fh, b, "error", "E:a" \o ToString(a), "none")
                                 ELSE SetRes(@, task[t].fh, b, "completed", "", "none")]
      /\ task' = [task EXCEPT ![t].pc = "mon"]
-  /\ UNCHANGED <<nev, q, unf, shut, hist, running, idle, semv, depth, lockq, nact, cur, o>>
+  /\ UNCHANGED <<nev, q, unf, shut, hist, running, idle, semv, depth, lockq, nact, nx, cur, o>>
 
 \* tail of process_event (WAL off): mark complete, walk up the parents, history cleanup (probe line ProcE)
+XTasksOf(t) == {k \in 1..nx : task[XT(k)].owner = t /\ task[XT(k)].pc # "free"}
 OwnerTail(t) ==
-  /\ task[t].fe # 0
-  /\ (cur = t /\ task[t].pc = "pb") \/ (cur = NoTask /\ task[t].pc = "mon")
+  /\ task[t].fe # 0 /\ t[1] # "x"
+  /\ \/ (cur = t /\ task[t].pc = "pb") \/ (cur = NoTask /\ task[t].pc = "mon")
+     \/ (cur = NoTask /\ task[t].pc = "pwait" /\ \A k \in XTasksOf(t) : task[XT(k)].pc = "done")
   /\ task[t].todo = <<>>
   /\ LET b == task[t].fb  e == task[t].fe
          E1 == Mark(ev, e)
@@ -387,9 +416,10 @@ OwnerTail(t) ==
         /\ o' = Obs(ProcLine("ProcE", t, b, e), E2, nev, H1, q)
   /\ task' = [task EXCEPT ![t].pc = "tail"]
   /\ cur' = t
-  /\ UNCHANGED <<nev, q, unf, shut, running, idle, semv, depth, lockq, nact>>
+  /\ UNCHANGED <<nev, q, unf, shut, running, idle, semv, depth, lockq, nact, nx>>
 
 \* what the caller of process_event does next: task_done; the run loop also leaves the lock, checks idle and polls again
+FreeX(T, t) == [u \in DOMAIN T |-> IF u[1] = "x" /\ T[u].owner = t /\ T[u].pc = "done" THEN [T[u] EXCEPT !.pc = "free"] ELSE T[u]]
 OwnerEpilogue(t) ==
   /\ cur = t /\ task[t].pc = "tail"
   /\ LET b == task[t].fb IN
@@ -397,20 +427,20 @@ OwnerEpilogue(t) ==
      /\ IF t[1] = "rl"
         THEN LET rel == IF depth - 1 = 0 THEN Release(task) ELSE [sem |-> semv, lq |-> lockq, T |-> task] IN
              /\ depth' = depth - 1 /\ semv' = rel.sem /\ lockq' = rel.lq
-             /\ task' = [rel.T EXCEPT ![t].pc = "poll", ![t].holds = (depth - 1 # 0), ![t].e = 0, ![t].fe = 0, ![t].fb = "", ![t].fh = "", ![t].fa = 0]
+             /\ task' = FreeX([rel.T EXCEPT ![t].pc = "poll", ![t].holds = (depth - 1 # 0), ![t].e = 0, ![t].fe = 0, ![t].fb = "", ![t].fh = "", ![t].fa = 0], t)
              /\ idle' = [idle EXCEPT ![b] = IF BusyOn(ev, hist, q, b) THEN @ ELSE TRUE]
              /\ cur' = NoTask
         ELSE \* inline loop of BaseEvent.__await__: back in the loop, same stretch
-             /\ task' = [task EXCEPT ![t].pc = "inl", ![t].fe = 0, ![t].fb = "", ![t].fh = "", ![t].fa = 0]
+             /\ task' = FreeX([task EXCEPT ![t].pc = "inl", ![t].fe = 0, ![t].fb = "", ![t].fh = "", ![t].fa = 0], t)
              /\ cur' = t
              /\ UNCHANGED <<depth, semv, lockq, idle>>
-  /\ UNCHANGED <<nev, ev, q, shut, hist, running, nact, o>>
+  /\ UNCHANGED <<nev, ev, q, shut, hist, running, nact, nx, o>>
 
 \* ------------------------------------------------------------------------
 \* handler tasks: the most general scenario handler
 \* ------------------------------------------------------------------------
 HEnterLine(a) == LET x == task[HT(a)] IN
-  Line("HEnter") @@ [act |-> a, b |-> x.b, e |-> x.e, h |-> x.h, byk |-> TaskLabelKind(x.owner), bya |-> IF x.owner[1] = "h" THEN x.owner[2] ELSE 0,
+  Line("HEnter") @@ [act |-> a, b |-> x.b, e |-> x.e, h |-> x.h, byk |-> TaskLabelKind(x.owner), bya |-> IF FrameOwner(x.owner)[1] = "h" THEN FrameOwner(x.owner)[2] ELSE 0,
                      rb |-> Last(ev[x.e].path), sync |-> FALSE, tmo |-> -1]       \* event.event_bus = last bus of the path (finding F9)
 
 HStart(a) ==
@@ -418,14 +448,14 @@ HStart(a) ==
   /\ task' = [task EXCEPT ![HT(a)].pc = "ops"]
   /\ cur' = HT(a)
   /\ o' = Obs(HEnterLine(a), ev, nev, hist, q)
-  /\ UNCHANGED <<nev, ev, q, unf, shut, hist, running, idle, semv, depth, lockq, nact>>
+  /\ UNCHANGED <<nev, ev, q, unf, shut, hist, running, idle, semv, depth, lockq, nact, nx>>
 
 HWake(a) ==    \* resumes after sleep(0) / sleep(d)
   /\ cur = NoTask /\ a <= nact /\ task[HT(a)].pc \in {"yield", "sleep"}
   /\ task' = [task EXCEPT ![HT(a)].pc = "ops"]
   /\ cur' = HT(a)
   /\ o' = Obs(Line("HOp") @@ [act |-> a, op |-> IF task[HT(a)].pc = "yield" THEN "y" ELSE "s"], ev, nev, hist, q)
-  /\ UNCHANGED <<nev, ev, q, unf, shut, hist, running, idle, semv, depth, lockq, nact>>
+  /\ UNCHANGED <<nev, ev, q, unf, shut, hist, running, idle, semv, depth, lockq, nact, nx>>
 
 InOps(a) == cur = HT(a) /\ task[HT(a)].pc = "ops"
 
@@ -437,20 +467,20 @@ HDispatch(a, b, ty) ==
      /\ ev' = d.E /\ q' = d.Q /\ unf' = d.U /\ hist' = d.H /\ running' = d.R
      /\ task' = [d.T EXCEPT ![HT(a)].bud = @ - 1, ![HT(a)].kids = Append(@, IF d.out = "ok" THEN e ELSE 0)]
      /\ o' = Obs(DispLine(b, e, ty, d.out, a, 0, FALSE), d.E, e, d.H, d.Q)
-  /\ UNCHANGED <<shut, idle, semv, depth, lockq, nact, cur>>
+  /\ UNCHANGED <<shut, idle, semv, depth, lockq, nact, nx, cur>>
 
 HSuspend(a, how) ==   \* sleep(0) ("yield") or a timed sleep
   /\ InOps(a) /\ task[HT(a)].bud > 0
   /\ how = "sleep" => WithSleep
   /\ task' = [task EXCEPT ![HT(a)].bud = @ - 1, ![HT(a)].pc = how]
   /\ cur' = NoTask
-  /\ UNCHANGED <<nev, ev, q, unf, shut, hist, running, idle, semv, depth, lockq, nact, o>>
+  /\ UNCHANGED <<nev, ev, q, unf, shut, hist, running, idle, semv, depth, lockq, nact, nx, o>>
 
 HAwaitBegin(a, k) ==
   /\ InOps(a) /\ task[HT(a)].bud > 0 /\ k \in DOMAIN task[HT(a)].kids /\ task[HT(a)].kids[k] # 0
   /\ task' = [task EXCEPT ![HT(a)].bud = @ - 1, ![HT(a)].aw = task[HT(a)].kids[k], ![HT(a)].pc = "inl"]
   /\ o' = Obs(Line("AwB") @@ [act |-> a, e |-> task[HT(a)].kids[k]], ev, nev, hist, q)
-  /\ UNCHANGED <<nev, ev, q, unf, shut, hist, running, idle, semv, depth, lockq, nact, cur>>
+  /\ UNCHANGED <<nev, ev, q, unf, shut, hist, running, idle, semv, depth, lockq, nact, nx, cur>>
 
 InInl(a) == cur = HT(a) /\ task[HT(a)].pc = "inl"
 
@@ -459,7 +489,7 @@ HAwaitDone(a) ==   \* the awaited event's signal is set: the await returns
   /\ InInl(a) /\ ev[task[HT(a)].aw].sig
   /\ task' = [task EXCEPT ![HT(a)].pc = "ops", ![HT(a)].aw = 0]
   /\ o' = Obs(AwELine(a), ev, nev, hist, q)
-  /\ UNCHANGED <<nev, ev, q, unf, shut, hist, running, idle, semv, depth, lockq, nact, cur>>
+  /\ UNCHANGED <<nev, ev, q, unf, shut, hist, running, idle, semv, depth, lockq, nact, nx, cur>>
 
 \* inline loop: take the HEAD of some non-empty queue and process it in this very task (finding F0)
 InlineTake(a, b) ==
@@ -469,34 +499,39 @@ InlineTake(a, b) ==
      /\ q' = Q1
      /\ task' = [task EXCEPT ![t].pc = "pb0", ![t].fb = b, ![t].fe = e, ![t].todo = <<>>, ![t].fh = "", ![t].fa = 0]
      /\ o' = Obs(ProcLine("ProcB", t, b, e), ev, nev, hist, Q1)
-  /\ UNCHANGED <<nev, ev, unf, shut, hist, running, idle, semv, depth, lockq, nact, cur>>
+  /\ UNCHANGED <<nev, ev, unf, shut, hist, running, idle, semv, depth, lockq, nact, nx, cur>>
 
 \* can some other task take a step without time passing?  (1000 zero-sleeps exhaust all of those)
 ZeroTimeRunnable(t) ==
   \E u \in Tasks \ {t} :
-     \/ task[u].pc \in {"new", "got", "granted", "hdone", "mon", "yield", "spin"}
+     \/ task[u].pc \in {"new", "got", "granted", "hdone", "mon", "yield", "spin", "xnew", "idle_yield"}
+     \/ task[u].pc = "pwait" /\ \A k \in XTasksOf(u) : task[XT(k)].pc = "done"
      \/ u[1] = "rl" /\ task[u].pc = "poll" /\ q[u[2]] # <<>>
-     \/ u[1] = "d" /\ task[u].pc = "woken"
+     \/ u[1] = "d" /\ task[u].pc = "xaw" /\ ev[task[u].aw].sig
+     \/ u[1] = "d" /\ task[u].pc = "idle_join" /\ unf[task[u].b] = 0
+     \/ u[1] = "d" /\ task[u].pc = "idle_flag" /\ idle[task[u].b]
+\* an external driver between two of its steps may or may not be about to act without time passing (it may be yielding)
+DriverMayAct(t) == \E u \in Tasks \ {t} : u[1] = "d" /\ task[u].pc = "run" /\ task[u].bud > 0
 
 InlineSpin(a) ==   \* nothing queued anywhere: sleep(0)
   /\ InInl(a) /\ ~ev[task[HT(a)].aw].sig /\ \A b \in B : q[b] = <<>>
-  /\ ZeroTimeRunnable(HT(a))
+  /\ ZeroTimeRunnable(HT(a)) \/ DriverMayAct(HT(a))
   /\ task' = [task EXCEPT ![HT(a)].pc = "spin"]
   /\ cur' = NoTask
-  /\ UNCHANGED <<nev, ev, q, unf, shut, hist, running, idle, semv, depth, lockq, nact, o>>
+  /\ UNCHANGED <<nev, ev, q, unf, shut, hist, running, idle, semv, depth, lockq, nact, nx, o>>
 
 SpinWake(a) ==
   /\ cur = NoTask /\ a <= nact /\ task[HT(a)].pc = "spin"
   /\ task' = [task EXCEPT ![HT(a)].pc = "inl"]
   /\ cur' = HT(a)
-  /\ UNCHANGED <<nev, ev, q, unf, shut, hist, running, idle, semv, depth, lockq, nact, o>>
+  /\ UNCHANGED <<nev, ev, q, unf, shut, hist, running, idle, semv, depth, lockq, nact, nx, o>>
 
 InlineGiveUp(a) ==  \* 1000 fruitless passes: falls through and returns the event as it is (finding F1)
   /\ InInl(a) /\ ~ev[task[HT(a)].aw].sig /\ \A b \in B : q[b] = <<>>
   /\ ~ZeroTimeRunnable(HT(a))
   /\ task' = [task EXCEPT ![HT(a)].pc = "ops", ![HT(a)].aw = 0]
   /\ o' = Obs(AwELine(a), ev, nev, hist, q)
-  /\ UNCHANGED <<nev, ev, q, unf, shut, hist, running, idle, semv, depth, lockq, nact, cur>>
+  /\ UNCHANGED <<nev, ev, q, unf, shut, hist, running, idle, semv, depth, lockq, nact, nx, cur>>
 
 HFinish(a, out) ==  \* return / raise: the handler task ends, its owner is woken
   /\ \/ InOps(a) /\ out \in {"ret"} \cup (IF WithErrors THEN {"raise"} ELSE {})
@@ -504,7 +539,7 @@ HFinish(a, out) ==  \* return / raise: the handler task ends, its owner is woken
   /\ task' = [task EXCEPT ![HT(a)].pc = "done", ![HT(a)].out = out, ![task[HT(a)].owner].pc = "hdone"]
   /\ cur' = NoTask
   /\ o' = Obs(Line("HExit") @@ [act |-> a, out |-> out], ev, nev, hist, q)
-  /\ UNCHANGED <<nev, ev, q, unf, shut, hist, running, idle, semv, depth, lockq, nact>>
+  /\ UNCHANGED <<nev, ev, q, unf, shut, hist, running, idle, semv, depth, lockq, nact, nx>>
 
 \* ------------------------------------------------------------------------
 \* external drivers
@@ -518,19 +553,19 @@ DDispatch(i, b, ty) ==
      /\ nev' = e /\ ev' = d.E /\ q' = d.Q /\ unf' = d.U /\ hist' = d.H /\ running' = d.R
      /\ task' = [d.T EXCEPT ![DT(i)].bud = @ - 1, ![DT(i)].kids = Append(@, IF d.out = "ok" THEN e ELSE 0)]
      /\ o' = Obs(DispLine(b, e, ty, d.out, 0, i, FALSE), d.E, e, d.H, d.Q)
-  /\ UNCHANGED <<shut, idle, semv, depth, lockq, nact, cur>>
+  /\ UNCHANGED <<shut, idle, semv, depth, lockq, nact, nx, cur>>
 
 DAwaitBegin(i, k) ==   \* await event from ordinary code: waits on the completion signal
   /\ DRun(i) /\ k \in DOMAIN task[DT(i)].kids /\ task[DT(i)].kids[k] # 0
   /\ task' = [task EXCEPT ![DT(i)].bud = @ - 1, ![DT(i)].aw = task[DT(i)].kids[k], ![DT(i)].pc = "xaw"]
   /\ o' = Obs(Line("XAwB") @@ [d |-> i, e |-> task[DT(i)].kids[k]], ev, nev, hist, q)
-  /\ UNCHANGED <<nev, ev, q, unf, shut, hist, running, idle, semv, depth, lockq, nact, cur>>
+  /\ UNCHANGED <<nev, ev, q, unf, shut, hist, running, idle, semv, depth, lockq, nact, nx, cur>>
 
 DAwaitEnd(i) ==        \* the waiter is woken some hops after the signal was set: the state may have moved on
   /\ cur = NoTask /\ task[DT(i)].pc = "xaw" /\ ev[task[DT(i)].aw].sig
   /\ task' = [task EXCEPT ![DT(i)].pc = "run", ![DT(i)].aw = 0]
   /\ o' = Obs(Line("XAwE") @@ [d |-> i, e |-> task[DT(i)].aw, same |-> TRUE, exc |-> ""], ev, nev, hist, q)
-  /\ UNCHANGED <<nev, ev, q, unf, shut, hist, running, idle, semv, depth, lockq, nact, cur>>
+  /\ UNCHANGED <<nev, ev, q, unf, shut, hist, running, idle, semv, depth, lockq, nact, nx, cur>>
 
 \* wait_until_idle (A.10), phases: join -> flag -> yield -> recheck (-> flag ...)
 DIdleBegin(i, b) ==
@@ -538,7 +573,7 @@ DIdleBegin(i, b) ==
   /\ task' = [task EXCEPT ![DT(i)].bud = @ - 1, ![DT(i)].pc = "idle_start", ![DT(i)].b = b]
   /\ cur' = DT(i)
   /\ o' = Obs(Line("IdleB") @@ [d |-> i, b |-> b, tmo |-> -1], ev, nev, hist, q)
-  /\ UNCHANGED <<nev, ev, q, unf, shut, hist, running, idle, semv, depth, lockq, nact>>
+  /\ UNCHANGED <<nev, ev, q, unf, shut, hist, running, idle, semv, depth, lockq, nact, nx>>
 DIdleStart(i) ==   \* wait_until_idle() begins with _start(); then it suspends in wait_for(queue.join())
   /\ cur = DT(i) /\ task[DT(i)].pc = "idle_start"
   /\ LET b == task[DT(i)].b
@@ -546,15 +581,15 @@ DIdleStart(i) ==   \* wait_until_idle() begins with _start(); then it suspends i
      /\ task' = [T1 EXCEPT ![DT(i)].pc = "idle_join"]
      /\ running' = [running EXCEPT ![b] = TRUE]
   /\ cur' = NoTask
-  /\ UNCHANGED <<nev, ev, q, unf, shut, hist, idle, semv, depth, lockq, nact, o>>
+  /\ UNCHANGED <<nev, ev, q, unf, shut, hist, idle, semv, depth, lockq, nact, nx, o>>
 DIdleJoin(i) ==
   /\ cur = NoTask /\ task[DT(i)].pc = "idle_join" /\ unf[task[DT(i)].b] = 0
   /\ task' = [task EXCEPT ![DT(i)].pc = "idle_flag"]
-  /\ UNCHANGED <<nev, ev, q, unf, shut, hist, running, idle, semv, depth, lockq, nact, cur, o>>
+  /\ UNCHANGED <<nev, ev, q, unf, shut, hist, running, idle, semv, depth, lockq, nact, nx, cur, o>>
 DIdleFlag(i) ==
   /\ cur = NoTask /\ task[DT(i)].pc = "idle_flag" /\ idle[task[DT(i)].b]
   /\ task' = [task EXCEPT ![DT(i)].pc = "idle_yield"]
-  /\ UNCHANGED <<nev, ev, q, unf, shut, hist, running, idle, semv, depth, lockq, nact, cur, o>>
+  /\ UNCHANGED <<nev, ev, q, unf, shut, hist, running, idle, semv, depth, lockq, nact, nx, cur, o>>
 DIdleRecheck(i) ==
   /\ cur = NoTask /\ task[DT(i)].pc = "idle_yield"
   /\ LET b == task[DT(i)].b IN
@@ -565,12 +600,14 @@ DIdleRecheck(i) ==
      ELSE /\ idle' = idle
           /\ task' = [task EXCEPT ![DT(i)].pc = "run", ![DT(i)].b = ""]
           /\ o' = Obs(Line("IdleE") @@ [d |-> i, b |-> b, exc |-> "", qn |-> Len(q[b])], ev, nev, hist, q)
-  /\ UNCHANGED <<nev, ev, q, unf, shut, hist, running, semv, depth, lockq, nact, cur>>
+  /\ UNCHANGED <<nev, ev, q, unf, shut, hist, running, semv, depth, lockq, nact, nx, cur>>
 
 \* ------------------------------------------------------------------------
 NextCore ==
   \/ \E b \in B : RLStart(b) \/ RLTake(b) \/ RLPollIdle(b) \/ RLBegin(b) \/ RLGranted(b)
   \/ \E t \in Tasks : SyncFinish(t, "ret") \/ SyncFinish(t, "raise") \/ SyncReturn(t) \/ (\E b \in B : \E ty \in Range(Types) : SyncDispatch(t, b, ty))
+  \/ \E t \in Tasks : ParStart(t)
+  \/ \E k \in 1..MaxAct : XStart(k) \/ XEnd(k)
   \/ \E t \in Tasks : FwdReturn(t) \/ OwnerAbort(t) \/ ProcSelect(t) \/ OwnerNext(t) \/ OwnerResume(t) \/ OwnerTail(t) \/ OwnerEpilogue(t)
   \/ \E a \in 1..MaxAct :
         \/ HStart(a) \/ HWake(a) \/ HAwaitDone(a) \/ InlineSpin(a) \/ SpinWake(a) \/ InlineGiveUp(a)
